@@ -76,6 +76,8 @@ func c01(w *core.World, r *core.Report) {
 	ruleNoRouteTable(w, r)
 	r.Rule("R19.10", "a command that cannot be routed poisons the batch: the sender ignores Put's result, so an unrecorded refusal silently drops the command while the rest of the batch is sent and the position moves past it (shared with C19)", 6)
 	ruleBatchPoisoned(w, r)
+	r.Rule("R10.16", "merging configured slot ranges is a union: a write on a key whose slot is configured in is not withheld (shared with C10)", 2)
+	ruleRangeMergeIsUnion(w, r)
 }
 
 // ---------------------------------------------------------------- R01.1
